@@ -15,7 +15,11 @@ P2B4 = Tuple[int, int, int, int, int, int, int, int, int, int, int, int]   # 2 p
 
 def _oracle(args, obs):
     prods, v, order = args
-    g = enc.ref_cfg(prods, v)
+    return _judge(enc.ref_cfg(prods, v), obs, len(prods))
+
+
+def _judge(g, obs, nprods):
+    prods = [None] * nprods
     tags = grammar_tags(g)
     lang = OC.words_upto(g, L)
     no_eps = lang - {()}
@@ -111,6 +115,56 @@ def c09_b4(t: P2B4, p: int) -> bool:
     return _run("c09_b4", (t, p), prods, 2)
 
 
+def _chain_oracle(args, obs):
+    from vlib.conds import chain
+    prods, v, order = args
+    return _judge(chain.ref(prods), obs, len(prods))
+
+
+def c09_chain(sd: bool, aa: bool, bmask: int, cmask: int) -> bool:
+    """
+    pre: 0 <= bmask < 16 and 0 <= cmask < 8
+    pre: pinned(sd=sd, aa=aa, bmask=bmask)
+    post: _
+    """
+    from vlib.conds import chain
+    raw = (sd, aa, bmask, cmask)
+    prods = chain.decode_chain(sd, aa, bmask, cmask)
+    chx.enter("c09_chain", raw)
+    obs = {}
+    for op in ("remove_useless_symbols", "remove_epsilon", "eliminate_unit_productions", "to_normal_form"):
+        g = chain.build(prods)
+        obs[op] = chx.guarded(getattr(g, op))
+    nf = obs["to_normal_form"]
+    obs["is_normal_form"] = chx.guarded(nf[1].is_normal_form) if nf[0] == "ok" else ("ok", None)
+    return chx.judge("C09", "c09_chain", raw, (prods, 4, None), obs, _chain_oracle, realize_obs=False)
+
+
+S4 = Tuple[int, int, int, int, int, int, int, int]
+
+
+def c09_b4s(b: S4) -> bool:
+    """
+    pre: all(0 <= b[i] < 3 for i in range(8))
+    pre: (b[0], b[1], b[2], b[3]) < (b[4], b[5], b[6], b[7])
+    pre: pinned(x0=b[0], x1=b[1], y0=b[4])
+    post: _
+    """
+    raw = (b,)
+    # one variable S (code 0) and terminals a, b (codes 1, 2): two productions S -> 4 symbols each
+    body0 = [enc.pick(b[i], 3) for i in range(4)]
+    body1 = [enc.pick(b[4 + i], 3) for i in range(4)]
+    prods = [(0, body0), (0, body1), (0, [1])]
+    chx.enter("c09_b4s", raw)
+    obs = {}
+    for op in ("remove_useless_symbols", "remove_epsilon", "eliminate_unit_productions", "to_normal_form"):
+        g = enc.build_cfg(prods, 1)
+        obs[op] = chx.guarded(getattr(g, op))
+    nf = obs["to_normal_form"]
+    obs["is_normal_form"] = chx.guarded(nf[1].is_normal_form) if nf[0] == "ok" else ("ok", None)
+    return chx.judge("C09", "c09_b4s", raw, (prods, 1, None), obs, _oracle, realize_obs=False)
+
+
 def _sh_p2(tier):
     return [{"p": 0}, {"p": 1}] + product_pins(p=[2], h0=[0, 1], l0=[0, 1, 2])
 
@@ -142,6 +196,14 @@ CONDS = [
     Cond("C09", c09_p3, _sh_p3,
          {"thorough": "all grammars with 3 distinct productions x 2 insertion orders of the production list"},
          FUNCS, RULE, assumptions=ASSUME, tiers=("thorough",)),
+    Cond("C09", c09_chain, lambda tier: __import__("vlib.conds.chain", fromlist=["x"]).shards(tier),
+         {"quick": "the 512 'nullable chain' grammars over 4 variables (see vlib/conds/chain.py)", "thorough": "same"},
+         FUNCS, RULE, assumptions=ASSUME),
+    Cond("C09", c09_b4s, lambda tier: (product_pins(x0=[1], x1=[1, 2], y0=[1, 2]) if tier == "quick" else
+                                       product_pins(x0=[0, 1, 2], x1=[0, 1, 2], y0=[0, 1, 2])),
+         {"quick": "S -> x1x2x3x4 | y1y2y3y4 | a over {S,a,b} with x1 = a (two bodies of length 4: suffix sharing at "
+                   "every depth of the binarisation)", "thorough": "all pairs of bodies of length 4 over {S,a,b}"},
+         FUNCS, RULE, assumptions=ASSUME),
     Cond("C09", c09_b4, _sh_b4,
          {"quick": "2 productions with bodies of length 3 (shared suffixes possible), first body starting with A or a",
           "thorough": "2 productions with bodies of length 3-4"},
